@@ -146,8 +146,11 @@ def key_hash(key: str) -> str:
     return hashlib.sha1(key.encode()).hexdigest()[:12]
 
 
+OUT_DIR = os.environ.get("MC_OUT_DIR", env.VERIF)  # evidence/ and replays/ (redirected for scratch runs against a copy of the repo)
+
+
 def write_replay(prop: str, key: str, entry: Dict[str, Any]) -> str:
-    d = os.path.join(env.VERIF, "replays", prop)
+    d = os.path.join(OUT_DIR, "replays", prop)
     os.makedirs(d, exist_ok=True)
     path = os.path.join(d, key_hash(key) + ".json")
     with open(path, "w") as f:
@@ -180,6 +183,8 @@ def finish(prop: str, tier: str, seed: int, level: str, acc: Acc, coverage: Dict
     coverage = dict(coverage)
     coverage.setdefault("samples", acc.samples[:5])
     coverage["caps_hit"] = [c for c in acc.caps if not c.startswith("HARNESS")][:10]
+    if acc.c.get("aborted_skipped", 0):
+        coverage["caps_hit"].append(f"{acc.c['aborted_skipped']} runs skipped after repeated exhausted step budgets (non-terminating tree)")
     if coverage["caps_hit"]:
         coverage["exhaustive"] = False
     coverage["distinct_outcomes"] = {k: len(v) for k, v in acc.sets.items()}
@@ -197,8 +202,8 @@ def finish(prop: str, tier: str, seed: int, level: str, acc: Acc, coverage: Dict
         "wall_s": round(time.time() - t0, 2),
         "violations": len(new_keys),
     }
-    os.makedirs(os.path.join(env.VERIF, "evidence"), exist_ok=True)
-    with open(os.path.join(env.VERIF, "evidence", prop + ".json"), "w") as f:
+    os.makedirs(os.path.join(OUT_DIR, "evidence"), exist_ok=True)
+    with open(os.path.join(OUT_DIR, "evidence", prop + ".json"), "w") as f:
         json.dump(ev, f, indent=1)
     for k in sorted(known_keys):
         print(f"KNOWN-FINDING: property={prop} key={k} count={acc.viol[k]['count']} :: {known[k]}")
